@@ -15,22 +15,25 @@ LEVEL = "proof"
 DESIGN_REF = "DESIGN.md §9 C14, §12.C14"
 COQ_TARGETS = ["Properties/C14", "Pins/C14"]
 _TH = ["C14_guarded_walk", "C14_tree_walk_unguarded_refuted", "C14_tree_walk_total", "C14_tree_walk_linear", "C14_colorspace_total",
-       "C14_ps_exec", "C14_ps_run", "C14_ps_body", "C14_fn2_load", "C14_differences", "C14_objstm_slice", "C14_objstm_header",
-       "C14_objstm_refuted", "C14_xref_section", "C14_xref_section_i32", "C14_xref_section_cost", "C14_xref_section_refuted", "C14_widths",
-       "C14_widths_refuted", "C14_crypt_sites", "C14_crypt_refuted", "C14_page_counts", "C14_page_counts_refuted",
-       "C14_predictor", "C14_predictor_sites", "C14_predictor_refuted", "C14_fax_capacity", "C14_fax_refuted",
-       "C14_full_statement_refuted", "C14_guards_in_source", "C14_budgets_in_source"]
+       "C14_ps_exec", "C14_ps_run", "C14_ps_body", "C14_fn2_load", "C14_differences",
+       # imported from the owning areas (their lemmas on their models of the current code)
+       "C14_objstm_slice", "C14_objstm_header", "C14_objstm_member", "C14_xref_section", "C14_xref_section_cost", "C14_widths", "C14_type0",
+       "C14_crypt_key_length", "C14_page_counts", "C14_decoders", "C14_predictor", "C14_import_total", "C14_guard_per_thread",
+       "C14_fax_capacity", "C14_fax_refuted", "C14_full_statement_refuted", "C14_guards_in_source", "C14_budgets_in_source"]
 THEOREMS = [("PdfV.Properties.C14", n) for n in _TH]
 ANCHORS = ["object/types.rs", "object/color.rs", "object/function.rs", "object/mod.rs", "crypt.rs", "encoding.rs", "enc.rs"]
-MODES = ["num_ps", "num_diff", "num_fnload", "num_objstm", "num_widths", "num_crypt", "num_pages", "num_tree", "unpredict"]
+MODES = ["num_ps", "num_diff", "num_fnload", "num_tree", "unpredict"]
 CASE_TIMEOUT = 12.0
 MODEL_TIMEOUT = 15.0
 LEVEL_TEXT = ("partial proof: machine-checked theorems for the recursion guard over arbitrary finite graphs, the repaired tree "
-              "walks and every numeric-parameter site modelled; the remainder of typed loading is explored (planted graphs), not proved")
+              "walks, the numeric-parameter sites of function.rs / encoding.rs / fax geometry (own models), and — imported from the areas that own "
+              "and repaired them — object streams, xref streams, CID /W, crypt key length, page counts, every decoder, the importer; the remainder of "
+              "typed loading is explored (planted graphs), not proved")
 LEVEL_NOTE = ("PROVED (Coq, universally quantified): guarded recursion terminates within depth |graph|+1 and never trips its "
               "assertion; NameTree/NumberTree walks visit each node once, depth <= 32; PostScript calculator (roll/index/parse), "
-              "function type 2, /Differences, object-stream offsets, xref section counts, CID /W, crypt key length, page counts, "
-              "predictor geometry, fax geometry: no panic on the stated decidable classes, refutation witnesses outside them. "
+              "function type 2, /Differences: no panic for any parameters; fax geometry: exactly the stated class panics (witness replayed). "
+              "IMPORTED (theorems of other areas about their models of the repaired code, re-exported): object-stream offsets and members, xref "
+              "section counts, CID /W and Type0, crypt key length, page counts, predictor geometry and every decoder, importer termination. "
               "EXPLORED (evidence only): everything else reached by typed loading of planted hostile graphs — every reference-typed "
               "field pointed at every object, nesting beyond the budgets, boundary values in every numeric field (fields taken from "
               "the #[derive(Object)] items of the source), each case in a child process with an 8 MiB stack.")
@@ -42,7 +45,10 @@ TRUSTED_BASE = ["coqc 8.16.1 kernel (vm_compute for witnesses and table lemmas; 
 ASSUMPTIONS = ["Rust integer semantics as written into the checked primitives of Safety/Numeric.v (debug profile: overflow panics; "
                "`as usize` of i32 wraps, of f32 saturates; slice index and assert! panic)",
                "C14_ps_exec holds for ANY rounding function (oracle `rnd`); the executable model uses round-to-nearest-even to 24 bits",
-               "the site models are tied to the code by correspondence on generated parameters (every run), not by proof",
+               "the own site models are tied to the code by correspondence on generated parameters (every run), not by proof; the imported "
+               "theorems speak about models of other areas (ObjStm, XRef, Font, Crypt, PageTree, Codec, Import, Cache) whose correspondence is "
+               "re-established by those areas' checks (C11, C02, C19, C06, C07, C05, C20, C13) — here their sites are exercised spec-only (no panic)",
+               "C14_crypt_key_length: MD5 returns 16 bytes (premise); C14_decoders: libflate / weezl return a value or an error (premise)",
                "graph model: the typed load of an object gets a finite list of other objects (C14_guarded_walk quantifies over all such graphs)"]
 RULE = ("per numeric site: boundary values {-1,0,1,2^31-1,2^31,2^32-1,2^32,2^63,2^64-1,2^64} and random values in every parameter, "
         "random PostScript programs over the implemented operators, random page trees with lying counts, random name/number tree "
@@ -205,7 +211,7 @@ def gen_objstm(rng, n):
         first = rng.choice([len(hdr) + 1, len(hdr) + 1, 0, 2**31 - 1, -1, 3])
         idx = rng.choice([0, 1, k - 1 if k else 0, k, 2**32, 2**64 - 1])
         data = hdr.encode() + b" " + body
-        yield Case("num_objstm", [d(nn), d(first), data, d(idx)], tags=["site:objstm"])
+        yield Case("num_objstm", [d(nn), d(first), data, d(idx)], model=False, tags=["site:objstm"])
 
 
 def gen_widths(rng, n):
@@ -223,16 +229,16 @@ def gen_widths(rng, n):
     for i in range(n):
         items = []
         for _ in range(rng.randint(0, 4)):
-            c1 = rng.choice(small + [-1, 65535])
+            c1 = rng.choice(small + [-1, 65535, 65536, 2**31 - 1])
             if rng.random() < 0.5:
                 items += [c1, [0] * rng.choice([0, 1, 2, 3])]
             else:
-                c2 = rng.choice([c1, c1 + 3, c1 - 1, 0, 70000, 300]) if rng.random() < 0.9 else c1 + 2**20
+                c2 = rng.choice([c1, c1 + 3, c1 - 1, 0, 70000, 300, -1, 65535, 2**31 - 1]) if rng.random() < 0.9 else min(2**31 - 1, c1 + 2**20)
                 items += [c1, c2, rng.choice([500, 0, -1])]
         if rng.random() < 0.15 and items:
             items = items[:-1]
         w, m = enc(items)
-        yield Case("num_widths", [w, b"1000"], mfields=[m], tags=["site:widths"])
+        yield Case("num_widths", [w, b"1000"], model=False, tags=["site:widths"])
 
 
 def gen_crypt(rng, n):
@@ -242,7 +248,7 @@ def gen_crypt(rng, n):
         ln = rng.choice([b"-", b"0", b"1", b"7", b"8", b"40", b"64", b"128", b"256", b"2147483647"])
         cfm = rng.choice([b"-", b"V2", b"AESV2", b"AESV3", b"None"])
         cfl = rng.choice([b"-", b"0", b"1", b"5", b"16", b"32", b"536870911", b"536870912", b"2147483647"])
-        yield Case("num_crypt", [d(v), d(r), ln, cfm, cfl], tags=["site:crypt"])
+        yield Case("num_crypt", [d(v), d(r), ln, cfm, cfl], model=False, tags=["site:crypt"])
 
 
 def gen_pages(rng, n):
@@ -265,7 +271,7 @@ def gen_pages(rng, n):
                 t = [("T", 1, t)]
         f = S.page_tree_file(t)
         for nr in set([0, 1, rng.randint(0, 6), rng.choice([2**31 - 1, 2**32 - 1, 2**31 - 2, 2**32 - 3])]):
-            yield Case("num_pages", [f, d(nr)], mfields=[S.page_tree_tokens(t), d(nr)], tags=["site:pages"])
+            yield Case("num_pages", [f, d(nr)], model=False, tags=["site:pages"])
 
 
 def gen_tree(rng, n):
@@ -310,8 +316,10 @@ def gen_unpredict(rng, n):
                               (2**31 - 1, -1), (-1, 2**31 - 1), (-2**31, -2**31)])
         if p in (1, 2, 10) and rng.random() < 0.5:
             c, cols = rng.choice([(2**31 - 1, 1), (1, 2**31 - 1), (1, -2**31)])      # predictor <= 10: geometry computed, rows untouched
+        bpc = rng.choice([8, 8, 8, 1, 2, 4, 16, 0, -1, 3, 2**31 - 1])
         data = bytes(rng.choice([0, 1, 2, 3, 4, 7]) if j % 3 == 0 else rng.randrange(256) for j in range(rng.choice([0, 1, 6, 13, 40])))
-        yield Case("unpredict", [d(p), d(c), d(cols), data, zlib.compress(data)], mfields=[d(p), d(c), d(cols), data], tags=["site:predictor"])
+        # mode of the Codec area (harness codec.rs, model Codec/Run.v: run_unpredict): predictor colors columns bpc data
+        yield Case("unpredict", [d(p), d(c), d(cols), d(bpc), zlib.compress(data)], mfields=[d(p), d(c), d(cols), d(bpc), data], kind="malformed", tags=["site:predictor"])
 
 
 def gen_fax(rng, n):
@@ -345,9 +353,7 @@ def gen_xref(rng, n):
             idx += [rng.choice([5, 2**31 - 1]), rng.choice([1, 2**31 - 1])]
         data = bytes(rng.choice([0, 1, 1, 2]) if j % 4 == 0 else rng.randrange(64) for j in range(rng.choice([0, 4, 20, 24, 40])))
         f, _, _ = xref_stream_file(w, idx, data, size=rng.choice([5, 0, 2**31 - 1]))
-        # the model's blow-up class: zero-width rows with a big count are listed separately (witness); keep the counts small here
-        if sum(w[:3]) == 0 and idx[1] > 2**16:
-            continue
+        # zero-width rows with a huge count (the former C14-k / C01-b) are part of the stream now: they must be refused quickly
         yield Case("num_xref", [rng.choice([b"s", b"t"]), f], model=False, tags=["site:xref"])
 
 
@@ -364,13 +370,23 @@ def generate(rng, tier):
         planted = hostile.planted(rng, tier)
     except Exception as e:       # the generator of planted graphs is part of the check: its absence is a machinery defect
         raise
-    cap = 900 if tier == "quick" else 9000
+    # every planted file of the tier (quick: ~4 400 files in one cross-reference style; thorough: four styles, capped).  The numeric
+    # fields that reach sites repaired by other areas (SITE_TAGS) come first: the theorems about those sites are imported by
+    # Properties/C14.v, and the walk is what exercises them on THIS property's inputs.
+    planted = list(planted)
+    planted = [p for p in planted if p[0].startswith(SITE_TAGS)] + [p for p in planted if not p[0].startswith(SITE_TAGS)]
+    planted = planted[:(6000 if tier == "quick" else 30000)]
     for j, (tag, data) in enumerate(planted):
-        if j >= cap:
-            break
         o = b"st"[j % 2:j % 2 + 1]
         ch = b"cn"[(j // 2) % 2:(j // 2) % 2 + 1]
         yield Case("walk", [o, ch, data], model=False, tags=["planted", tag.split("=")[0][:60]], note=tag)
+
+
+# planted numeric fields that reach sites repaired (and proved) by other areas
+SITE_TAGS = ("num:objstm-", "num:ObjStmInfo.", "num:XRefInfo.", "num:CIDFont.W", "num:CIDFont.DW", "num:Type0Font.", "num:CryptDict.", "num:CryptFilter.",
+             "num:PagesNode.Count", "num:PageTree.Count", "num:LZWFlateParams", "num:CCITTFaxDecodeParams", "num:filter-data:RunLengthDecode", "num:Trailer.", "num:TFont.",
+             # … and the sites of this area
+             "num:PostScript", "num:Sampled", "num:Function2", "num:RawFunction", "num:Encoding.Differences", "num:NameTree", "num:NumberTree")
 
 
 def nontrivial(c):
@@ -424,7 +440,7 @@ def classify(case, impl, model):
 
 
 def witness_case(f, c):
-    if c.mode == "walk" or c.mode in ("num_fax", "num_xref", "num_fnapply") or (c.mode == "num_fnload" and c.mfields is None):
+    if c.mode not in MODES or (c.mode == "num_fnload" and c.mfields is None):
         c.model = False
     if f.get("status") == "fixed":
         c.check = None
@@ -451,4 +467,4 @@ def coverage_extra(cases, impl, model):
                     if t != "planted" and t not in e["tags"] and len(e["tags"]) < 6:
                         e["tags"].append(t)
     return {"site_cases": sites, "site_outcomes": outcomes, "walk_failures": walk,
-            "proved_vs_explored": {"proved": "Properties/C14.v (30 theorems)", "explored": "mode walk on planted graphs; modes num_fax, num_xref, num_fnapply, fn0/fn4 load (no model)"}}
+            "proved_vs_explored": {"proved": "Properties/C14.v (%d theorems, 13 imported)" % len(_TH), "explored": "mode walk on planted graphs; modes num_fax, num_xref, num_fnapply, fn0/fn4 load, num_objstm, num_widths, num_crypt, num_pages (no model here)"}}
